@@ -39,7 +39,7 @@ def preCodec : BodyCodec PreBody where
       | .ok (bs, n) =>
         match fds with
         | none => .ok (bs, none)
-        | some _ => .ok (bs, some (List.replicate n 0))
+        | some _ => .ok (bs, some (List.replicate n (.int .plain 0)))
   unmarshal := fun _ raw _ _ => .ok ⟨.ok (raw, 0)⟩
 
 def errOfName (s : String) : PyErr :=
@@ -68,13 +68,13 @@ def pre? (t : String) : Option (Option PreBody) :=
     | ["err", e] => some (some ⟨.error (errOfName e)⟩)
     | _ => none
 
-def oob? (t : String) : Option (Option (List Int)) :=
-  if t == "N" then some none else t.toNat?.map fun n => some (List.replicate n 0)
+def oob? (t : String) : Option (Option (List PyVal)) :=
+  if t == "N" then some none else t.toNat?.map fun n => some (List.replicate n (.int .plain 0))
 
-def fds? (t : String) : Option (Option (List Int)) :=
+def fds? (t : String) : Option (Option (List PyVal)) :=
   if t == "N" then some none
   else if t == "-" then some (some [])
-  else ((t.splitOn ",").mapM String.toInt?).map some
+  else ((t.splitOn ",").mapM String.toInt?).map fun l => some (l.map (PyVal.int .plain))
 
 def tf (b : Bool) : String := if b then "T" else "F"
 
